@@ -120,6 +120,9 @@ func (obj *VectorId) SetParameters(parameters Vector) error {
 func (obj *VectorId) ImportConfig(config ConfigDistribution, t ScalarType) error {
   distributions := []VectorPdf{}
 
+  if len(config.Distributions) == 0 {
+    return fmt.Errorf("invalid config file: no distributions")
+  }
   for i := 0; i < len(config.Distributions); i++ {
     if obj, err := ImportVectorPdfConfig(config.Distributions[i], t); err != nil {
       return err
